@@ -53,6 +53,7 @@ SHARDS = {'quick': 1, 'thorough': 16}
 
 C_EPS = 1e4*np.finfo(float).eps
 RELS = ['ident', 'same', 'refine', 'coarsen', 'inside', 'outside', 'shift',
+        'translate',
         'disjoint']
 CONSERVING = {'ident', 'same', 'refine', 'coarsen'}
 KIND_POOLS = {
@@ -63,6 +64,9 @@ KIND_POOLS = {
     'nested': ['inside', 'inside', 'same', 'refine'],
     'enclosing': ['outside', 'outside', 'same', 'coarsen'],
     'shifted': ['shift', 'shift', 'inside', 'outside', 'same'],
+    # translated copy of the bounding box: same total extent in every
+    # direction, other origin (and possibly other partition)
+    'translated': ['translate', 'translate', 'same', 'ident'],
     'disjoint': ['disjoint', 'shift', 'outside', 'same'],
     'mixed': RELS,
 }
@@ -141,6 +145,11 @@ def _axis_lattice(rel, na, nb, rng):
             p -= int(rng.integers(0, 3))
             q += int(rng.integers(1, 3))
         return a, _int_partition(rng, p, q, nb)
+    if rel == 'translate':
+        L = max(na, nb, 2) + int(rng.integers(0, 12))
+        a = _int_partition(rng, 0, L, na)
+        sh = int(rng.integers(1, L+3))*(-1)**int(rng.integers(2))
+        return a, _int_partition(rng, sh, sh+L, nb)
     if rel == 'shift':
         L = max(na, 2) + int(rng.integers(0, 12))
         a = _int_partition(rng, 0, L, na)
@@ -206,6 +215,9 @@ def _axis_float(rel, na, nb, rng, kind, scale, offset):
     elif rel == 'outside':
         p = o1 - rng.uniform(0, 1)*L*rng.integers(0, 2)
         q = end + rng.uniform(0, 1)*L*rng.integers(0, 2)
+    elif rel == 'translate':
+        p = o1 + rng.uniform(0.05, 1.2)*L*(-1)**int(rng.integers(2))
+        q = p + L
     elif rel == 'shift':
         if rng.integers(2):
             p = o1 + rng.uniform(0.05, 0.95)*L
